@@ -10,6 +10,7 @@ lines), and Vary must not contain '*'.  History cases store several variants und
 import itertools
 
 from vverif import lockstep as ls
+from vverif import lsx
 from vverif.core import Result, Violation, HarnessError
 
 LEVEL = 'exploration'
@@ -83,7 +84,7 @@ def all_cases(quick):
 
 
 def make_world(ctx, shard):
-    return ls.World(ctx, 'w%d' % shard, ls.port_base_for_check(ctx.pid, shard), memory_cache=True)
+    return lsx.RetryWorld(ctx, 'w%d' % shard, ls.port_base_for_check(ctx.pid, shard), memory_cache=True)
 
 
 def req_lines(vals):
